@@ -27,6 +27,7 @@ struct Model {
 }
 
 struct Walk<'a> {
+    toks: &'a [Vec<u8>],
     doc: &'a [u8],      // token indices
     bytes: &'a [u8],    // the document
     max_flips: usize,
@@ -37,7 +38,27 @@ struct Walk<'a> {
     violated: bool,
 }
 
-fn expected_next(m: &mut Model, doc: &[u8], cfg: u8) -> (Ev, u64, Option<u64>) {
+/// The token table with the three names stretched to `l` repetitions (l = 1: the table above).
+fn tokens(l: usize) -> Vec<Vec<u8>> {
+    let a = b"a".repeat(l);
+    let x = b"\xD1\x85".repeat(l);
+    let cat = |parts: &[&[u8]]| parts.concat();
+    vec![
+        cat(&[b"<", &a, b">"]),
+        cat(&[b"<", &a, b"b>"]),
+        cat(&[b"<", &x, b"/>"]),
+        cat(&[b"</", &a, b">"]),
+        cat(&[b"</", &a, b"b>"]),
+        cat(&[b"</", &a, b" >"]),
+        cat(&[b"</", &x, b">"]),
+        b"x".to_vec(),
+        cat(&[b"</", &a, b"\x0C>"]),
+    ]
+}
+const TOK_EMPTY: u8 = 2;
+const TOK_TEXT: u8 = 7;
+
+fn expected_next(m: &mut Model, toks: &[Vec<u8>], doc: &[u8], cfg: u8) -> (Ev, u64, Option<u64>) {
     if let Some(name) = m.pending_end.take() {
         m.stack.0.pop();
         return (Ev::End(name), m.pos, None);
@@ -45,30 +66,31 @@ fn expected_next(m: &mut Model, doc: &[u8], cfg: u8) -> (Ev, u64, Option<u64>) {
     if m.tok >= doc.len() {
         return (Ev::Eof, m.pos, None);
     }
-    let t = TOKENS[doc[m.tok] as usize];
+    let ti = doc[m.tok];
+    let t = &toks[ti as usize][..];
     m.tok += 1;
     let at = m.pos;
     m.pos += t.len() as u64;
     let after = m.pos;
-    match t {
-        b"x" => {
+    match ti {
+        TOK_TEXT => {
             // adjacent text tokens are one text run
             let mut text = b"x".to_vec();
-            while m.tok < doc.len() && TOKENS[doc[m.tok] as usize] == b"x" {
+            while m.tok < doc.len() && doc[m.tok] == TOK_TEXT {
                 m.tok += 1;
                 m.pos += 1;
                 text.push(b'x');
             }
             (Ev::Text(text), m.pos, None)
         }
-        b"<\xD1\x85/>" => {
-            let n: &[u8] = b"\xD1\x85";
+        TOK_EMPTY => {
+            let n: &[u8] = &t[1..t.len() - 2];
             if cfg & EXPAND_EMPTY != 0 {
                 m.stack.start(n);
                 m.pending_end = Some(n.to_vec());
-                (Ev::Start(n.to_vec(), 2), after, None)
+                (Ev::Start(n.to_vec(), n.len()), after, None)
             } else {
-                (Ev::Empty(n.to_vec(), 2), after, None)
+                (Ev::Empty(n.to_vec(), n.len()), after, None)
             }
         }
         _ if t.starts_with(b"</") => {
@@ -94,6 +116,14 @@ fn expected_next(m: &mut Model, doc: &[u8], cfg: u8) -> (Ev, u64, Option<u64>) {
     }
 }
 
+fn head(b: &[u8]) -> String {
+    if b.len() <= 300 {
+        lossy(b)
+    } else {
+        format!("{}...({} bytes)", lossy(&b[..120]), b.len())
+    }
+}
+
 impl<'a> Walk<'a> {
     fn go(&mut self, reader: &Reader<&'a [u8]>, model: &Model, cfg: u8, flips: usize, saw_err: bool, deep_pop: bool) {
         if self.violated {
@@ -104,7 +134,7 @@ impl<'a> Walk<'a> {
             let mut r = reader.clone();
             let mut m = model.clone();
             let depth_before = m.stack.0.len();
-            let (exp, pos, epos) = expected_next(&mut m, self.doc, cfg);
+            let (exp, pos, epos) = expected_next(&mut m, self.toks, self.doc, cfg);
             let got = guarded_mut(|| {
                 let ev = Ev::from_result(&r.read_event());
                 (ev, r.buffer_position(), r.error_position())
@@ -122,9 +152,9 @@ impl<'a> Walk<'a> {
                     self.order,
                     format!(
                         "document {:?}, initial cfg [{}], history [{}]: read_event returned {} pos={} err_pos={}, stack model says {} pos={} err_pos={:?}",
-                        lossy(self.bytes), cfg_show(self.init_cfg), hist, gev.show(), gpos, gepos, exp.show(), pos, epos
+                        head(self.bytes), cfg_show(self.init_cfg), hist, head(gev.show().as_bytes()), gpos, gepos, head(exp.show().as_bytes()), pos, epos
                     ),
-                    json!({"doc": bytes_json(self.bytes), "tokens": self.doc, "init_cfg": self.init_cfg, "history": self.history}),
+                    json!({"name_len": self.toks[0].len() - 2, "tokens": self.doc, "init_cfg": self.init_cfg, "history": self.history}),
                 );
                 return;
             }
@@ -187,6 +217,7 @@ pub fn run(ctx: &Ctx) {
     let k = TOKENS.len() as u64;
     let docs = count_upto(k, max_tokens);
     let seed = ctx.seed;
+    let toks1 = tokens(1);
     ctx.layer(
         "histories",
         0,
@@ -202,24 +233,66 @@ pub fn run(ctx: &Ctx) {
                     cfg |= sw;
                 }
             }
-            let bytes: Vec<u8> = doc.iter().flat_map(|&d| TOKENS[d as usize].iter().copied()).collect();
+            let bytes: Vec<u8> = doc.iter().flat_map(|&d| toks1[d as usize].iter().copied()).collect();
             let mut reader = Reader::from_reader(&bytes[..]);
             apply_cfg(reader.config_mut(), cfg);
             acc.evaluations += 1;
-            let mut w = Walk { doc: &doc, bytes: &bytes, max_flips, acc, order: (0, i), init_cfg: cfg, history: Vec::new(), violated: false };
+            let mut w = Walk { toks: &toks1, doc: &doc, bytes: &bytes, max_flips, acc, order: (0, i), init_cfg: cfg, history: Vec::new(), violated: false };
             let model = Model { stack: TagStack::default(), tok: 0, pending_end: None, pos: 0 };
             w.go(&reader, &model, cfg, 0, false, false);
             acc.sample(seed, i, || json!({"document": lossy(&bytes), "initial_cfg": cfg_show(cfg)}));
         },
     );
+
+    // size thresholds of the name stack (a shared byte buffer indexed by offsets): the same walk with
+    // the three names stretched to every length of the list
+    let lens: Vec<usize> = t.pick(
+        vec![2, 8, 9, 16, 17, 32, 64, 128, 255, 256, 257, 1024, 65535, 65536, 65537],
+        crate::inputs::size_list(130, 17).into_iter().filter(|&n| n >= 2).map(|n| n as usize).collect(),
+    );
+    if !full {
+        return; // the name stack is the same code in both builds
+    }
+    let long_tokens: u32 = t.pick(3, 4);
+    let long_flips: usize = 1;
+    let tables: Vec<Vec<Vec<u8>>> = lens.iter().map(|&l| tokens(l)).collect();
+    let ldocs = count_upto(k, long_tokens);
+    ctx.layer(
+        "histories.long_names",
+        1,
+        ldocs * 16 * lens.len() as u64,
+        json!({"name_lengths": lens, "max_tokens": long_tokens, "max_flips": long_flips, "initial_settings": 16}),
+        |i, acc| {
+            let li = (i % lens.len() as u64) as usize;
+            let j = i / lens.len() as u64;
+            let toks = &tables[li];
+            let mut doc = Vec::new();
+            decode_upto(k, long_tokens, j / 16, &mut doc);
+            let init = (j % 16) as u8;
+            let mut cfg = 0u8;
+            for (b, sw) in SWITCHES.iter().enumerate() {
+                if init & (1 << b) != 0 {
+                    cfg |= sw;
+                }
+            }
+            let bytes: Vec<u8> = doc.iter().flat_map(|&d| toks[d as usize].iter().copied()).collect();
+            let mut reader = Reader::from_reader(&bytes[..]);
+            apply_cfg(reader.config_mut(), cfg);
+            acc.evaluations += 1;
+            let mut w = Walk { toks, doc: &doc, bytes: &bytes, max_flips: long_flips, acc, order: (1, i), init_cfg: cfg, history: Vec::new(), violated: false };
+            let model = Model { stack: TagStack::default(), tok: 0, pending_end: None, pos: 0 };
+            w.go(&reader, &model, cfg, 0, false, false);
+        },
+    );
 }
 
 pub fn replay(case: &Value) -> Result<(), String> {
-    let bytes = bytes_from_json(&case["doc"]);
+    let toks = tokens(case["name_len"].as_u64().unwrap_or(1) as usize);
     let doc: Vec<u8> = case["tokens"].as_array().ok_or("no tokens")?.iter().map(|v| v.as_u64().unwrap() as u8).collect();
+    let bytes: Vec<u8> = doc.iter().flat_map(|&d| toks[d as usize].iter().copied()).collect();
     let mut cfg = case["init_cfg"].as_u64().unwrap_or(0) as u8;
     let hist: Vec<String> = case["history"].as_array().map(|a| a.iter().map(|v| v.as_str().unwrap().to_string()).collect()).unwrap_or_default();
-    println!("document {:?} initial cfg [{}]", lossy(&bytes), cfg_show(cfg));
+    println!("document {:?} initial cfg [{}]", head(&bytes), cfg_show(cfg));
     let mut reader = Reader::from_reader(&bytes[..]);
     apply_cfg(reader.config_mut(), cfg);
     let mut m = Model { stack: TagStack::default(), tok: 0, pending_end: None, pos: 0 };
@@ -238,11 +311,11 @@ pub fn replay(case: &Value) -> Result<(), String> {
             apply_cfg(reader.config_mut(), cfg);
             println!("  flip -> [{}]", cfg_show(cfg));
         } else {
-            let (exp, pos, epos) = expected_next(&mut m, &doc, cfg);
+            let (exp, pos, epos) = expected_next(&mut m, &toks, &doc, cfg);
             let got = Ev::from_result(&reader.read_event());
-            println!("  read_event -> {} pos={} err_pos={}   | model: {} pos={} err_pos={:?}", got.show(), reader.buffer_position(), reader.error_position(), exp.show(), pos, epos);
+            println!("  read_event -> {} pos={} err_pos={}   | model: {} pos={} err_pos={:?}", head(got.show().as_bytes()), reader.buffer_position(), reader.error_position(), head(exp.show().as_bytes()), pos, epos);
             if got != exp || reader.buffer_position() != pos || epos.map_or(false, |e| e != reader.error_position()) {
-                return Err(format!("read_event returned {}, model says {}", got.show(), exp.show()));
+                return Err(format!("read_event returned {}, model says {}", head(got.show().as_bytes()), head(exp.show().as_bytes())));
             }
         }
     }
